@@ -57,6 +57,8 @@ func (d *dom256) count() int {
 	return n
 }
 
+var debugCondN int
+
 type trailEntry struct {
 	c   *Cell
 	old Value
@@ -117,10 +119,12 @@ type Machine struct {
 	dom         map[int32]*dom256
 	domDirty    map[int32]bool
 	domLit      map[int32]*Term
+	wdom        map[int32]ivset
 	pcSingle    int
 	pcSet       map[*Term]bool
 	idnaErr     map[string]*Term
 	origin      map[*Term][]*Term
+	originRev   map[*Term]*Term
 	steps       int
 	stepBudget  int
 	depth       int
@@ -190,6 +194,12 @@ func NewMachine(prog *ssa.Program, solverKind string, opts Options) (*Machine, e
 	if err != nil {
 		return nil, err
 	}
+	// summaries are an optimisation: their context-free infeasibility checks get a small,
+	// deterministic resource limit (an "unknown" only makes the call run inline instead)
+	cf.rlimit = 2000000
+	if err := cf.Restart(); err != nil {
+		return nil, err
+	}
 	m.solverCF = cf
 	m.stepBudget = opts.stepBudget
 	return m, nil
@@ -223,10 +233,12 @@ func (m *Machine) resetPath(item WorkItem) {
 	m.dom = map[int32]*dom256{}
 	m.domDirty = map[int32]bool{}
 	m.domLit = map[int32]*Term{}
+	m.wdom = map[int32]ivset{}
 	m.pcSingle = 0
 	m.pcSet = map[*Term]bool{}
 	m.idnaErr = map[string]*Term{}
 	m.origin = map[*Term][]*Term{}
+	m.originRev = map[*Term]*Term{}
 	m.steps = 0
 	m.depth = 0
 	m.recoverable = nil
@@ -317,6 +329,7 @@ func (m *Machine) addPC(l *Term) {
 		m.refine(l)
 		return
 	}
+	m.refineWide(l)
 	m.pc = append(m.pc, l)
 	m.pcSet[l] = true
 	m.solver.PathAssert(l)
@@ -458,6 +471,16 @@ func (m *Machine) factsImplyD(c *Term, depth int) int {
 	}
 	if depth > 40 {
 		return 0
+	}
+	if m.local == nil && len(m.wdom) > 0 {
+		if r := m.wideImply(c); r != 0 {
+			return r
+		}
+	}
+	if m.local == nil {
+		if r := m.cutImply(c); r != 0 {
+			return r
+		}
 	}
 	switch c.op {
 	case OpNot:
@@ -623,6 +646,18 @@ func (m *Machine) branchAt(c *Term, oblig bool, site ssa.Instruction) bool {
 					fn = site.Parent().String() + " @ " + m.prog.Fset.Position(site.Pos()).String()
 				}
 				_ = fn
+				if os.Getenv("VERIF_DEBUG_UNSATCOND") != "" {
+					debugMu.Lock()
+					if debugCondN < 60 {
+						debugCondN++
+						cs := c.String()
+						if len(cs) > 300 {
+							cs = cs[:300]
+						}
+						fmt.Fprintf(os.Stderr, "UNSATCOND mv=%v v1=%d v2=%d many=%v %s\n", mv, c.v1, c.v2, c.many, cs)
+					}
+					debugMu.Unlock()
+				}
 			}
 		default:
 			otherFeasible = -1
@@ -756,6 +791,10 @@ func (m *Machine) decodeRuneAt(b []*Term, i int) (*Term, int) {
 		}
 	}
 	b0 := b[i]
+	// bytes that are the recorded UTF-8 encoding of a rune term decode to that term
+	if r, n, ok := m.getOriginRev(b, i); ok {
+		return r, n
+	}
 	invalid := func() (*Term, int) { return st.Const(32, 0xFFFD), 1 }
 	z := func(t *Term) *Term { return st.ZExt(t, 32) }
 	and := func(t *Term, k uint64) *Term { return st.Bin(OpBAnd, z(t), st.Const(32, k)) }
@@ -903,11 +942,48 @@ func (m *Machine) setOrigin(r *Term, b []*Term) {
 	if m.local != nil {
 		if m.local.origin == nil {
 			m.local.origin = map[*Term][]*Term{}
+			m.local.originRev = map[*Term]*Term{}
 		}
 		m.local.origin[r] = b
+		if len(b) > 0 && b[0].op != OpConst {
+			m.local.originRev[b[0]] = r
+		}
 		return
 	}
 	m.origin[r] = b
+	if len(b) > 0 && b[0].op != OpConst {
+		m.originRev[b[0]] = r
+	}
+}
+
+// getOriginRev: if b[i:] starts with exactly the bytes recorded as the encoding of a rune term,
+// return that term and the length (the record was made under a path condition that still holds).
+func (m *Machine) getOriginRev(b []*Term, i int) (*Term, int, bool) {
+	var r *Term
+	var enc []*Term
+	if m.local != nil {
+		if m.local.originRev == nil {
+			return nil, 0, false
+		}
+		r = m.local.originRev[b[i]]
+		if r != nil {
+			enc = m.local.origin[r]
+		}
+	} else {
+		r = m.originRev[b[i]]
+		if r != nil {
+			enc = m.origin[r]
+		}
+	}
+	if r == nil || len(enc) == 0 || i+len(enc) > len(b) {
+		return nil, 0, false
+	}
+	for j, t := range enc {
+		if b[i+j] != t {
+			return nil, 0, false
+		}
+	}
+	return r, len(enc), true
 }
 
 func (m *Machine) getOrigin(r *Term) ([]*Term, bool) {
